@@ -75,7 +75,9 @@ pub fn j01(arena: &Arena<Payload>, obs: &[SlotObs]) -> Vec<Failure> {
                 if let Err(kind) = resolve(id) {
                     bad_link = true;
                     out.push(fail(
-                        C01 | C12,
+                        // an accessor handing out an id of an earlier generation hands out an id
+                        // the arena issued before and has since removed (C06)
+                        C01 | C12 | if kind == "names-earlier-generation" { C06 } else { 0 },
                         "links",
                         true,
                         obs::LINK_NAMES[k],
